@@ -13,6 +13,10 @@
 #include "bitserializer/conversion_detail/memory_utils.h"
 #include "bitserializer/conversion_detail/convert_enum.h"
 
+#if defined(BITSERIALIZER_VERIF)
+struct BitSerializerVerifAccess;
+#endif
+
 namespace BitSerializer::Convert::Utf
 {
 	/// <summary>
@@ -877,9 +881,18 @@ namespace BitSerializer::Convert::Utf
 	/// <summary>
 	/// Allows to read streams in various UTF encodings with automatic detection.
 	/// </summary>
+#if defined(BITSERIALIZER_VERIF) && defined(BITSERIALIZER_VERIF_ENC_CHUNK_SIZE)
+	// Verification hook: shrink the default chunk so that chunk boundaries are reachable with small texts
+	template <typename TTargetCharType, size_t ChunkSize = BITSERIALIZER_VERIF_ENC_CHUNK_SIZE>
+#else
 	template <typename TTargetCharType, size_t ChunkSize = 256>
+#endif
 	class CEncodedStreamReader
 	{
+#if defined(BITSERIALIZER_VERIF)
+		// Verification hook: lets the conformance harness project the private window state
+		friend struct ::BitSerializerVerifAccess;
+#endif
 	public:
 		static constexpr size_t chunk_size = ChunkSize;
 
